@@ -156,7 +156,7 @@ class Validator(object):
                 # check that the children are all allowed children
                 if not element_children <= valid_children:
                     errs.append(ValidationError("Invalid children detected for {}: {}".
-                                                format(el, list(element_children - valid_children))))
+                                                format(el, sorted(element_children - valid_children, key=str))))
 
                 # iterates the valid children
                 for child_ref in valid_children_refs:
